@@ -116,19 +116,21 @@ theorem handleWHO_inv (st : St) (e : Event) (h : Inv st) : Good (handleWHO st e)
     · rw [idx_ok _ 2 (by omega), idx_ok _ 3 (by omega), idx_ok _ 5 (by omega)]
       exact hjp _
 
-theorem modePerms_inv (name : Bytes) (st : St) (m : CMode) (h : Inv st) : Inv (modePerms name st m) := by
+theorem modePerms_inv (name la : Bytes) (st : St) (m : CMode) (h : Inv st) : Inv (modePerms name la st m) := by
   unfold modePerms
   split
   · exact h
   · split
     · exact h
-    · next user hu => exact inv_setUser_lookup h hu rfl rfl
+    · split
+      · exact h
+      · next user hu => exact inv_setUser_lookup h hu rfl rfl
 
-theorem foldl_modePerms_inv (name : Bytes) (l : List CMode) :
-    ∀ st : St, Inv st → Inv (l.foldl (modePerms name) st) := by
+theorem foldl_modePerms_inv (name la : Bytes) (l : List CMode) :
+    ∀ st : St, Inv st → Inv (l.foldl (modePerms name la) st) := by
   induction l with
   | nil => intro st h; exact h
-  | cons m l ih => intro st h; exact ih _ (modePerms_inv name st m h)
+  | cons m l ih => intro st h; exact ih _ (modePerms_inv name la st m h)
 
 theorem handleMODE_inv (st : St) (e : Event) (h : Inv st) : Good (handleMODE st e) := by
   unfold handleMODE
@@ -142,7 +144,7 @@ theorem handleMODE_inv (st : St) (e : Event) (h : Inv st) : Good (handleMODE st 
       · exact good_ok h
       · next channel hc =>
         rw [idx_ok ps 1 (by omega), ok_bind]
-        exact good_ok (foldl_modePerms_inv _ _ _ (inv_setChannel_lookup h hc rfl rfl))
+        exact good_ok (foldl_modePerms_inv _ _ _ _ (inv_setChannel_lookup h hc rfl rfl))
 
 theorem updUser_inv (st : St) (n : Bytes) (f : User → User) (h : Inv st)
     (hf : ∀ u, (f u).nick = u.nick ∧ (f u).chans = u.chans) : Inv (updUser st n f) := by
